@@ -12,7 +12,7 @@ import (
 
 func init() {
 	registerCheck("C11", checkC11)
-	vReplayers["C11"] = csReplay
+	vReplayers["C11"] = anyReplay
 	for _, stream := range []string{"state", "candidate", "pair"} {
 		for _, mode := range []string{"graceful", "abrupt", "reenter", "close-in-handler", "two-enqueuers"} {
 			stream, mode := stream, mode
@@ -164,11 +164,11 @@ func c11scenario(stream, mode string) zzmc.Scenario {
 func checkC11(c *runCtx) {
 	c.assume("sequential consistency between scheduling points (every mutex, WaitGroup, channel operation and go statement of agent_handlers.go; handlers contain one more point)",
 		"the task loop is the only enqueuer in the agent, so one enqueuer thread is the faithful driver; a second enqueuer is explored as an extra",
-		"the gathering half of the statement (single nil candidate, ufrag stamping, cancelled cycles) is checked by the gathering scenarios of C18, which share the fake Net")
+		"the gathering half of the statement (single nil candidate, ufrag stamping, cancelled cycles) is checked on the gathering model (fake transport.Net) and by the Restart race scenarios")
 	dl := c01deadline(c, 150, 1200)
-	b := 3
+	b := 4
 	if !c.quick() {
-		b = 4
+		b = 5
 	}
 	for _, stream := range []string{"state", "candidate", "pair"} {
 		for _, mode := range []string{"graceful", "abrupt", "reenter", "close-in-handler"} {
@@ -176,5 +176,18 @@ func checkC11(c *runCtx) {
 		}
 	}
 	csExplore(c, "notifier-state-two-enqueuers", b-1, dl, nil)
+	// gathering half: one nil candidate per completed cycle, after all of its candidates, each stamped with the
+	// cycle's ufrag; none from a cycle cancelled by Restart (oracles of the gathering model, see c09_test.go)
+	p := newVTPool()
+	defer p.close()
+	depth := 6
+	if !c.quick() {
+		depth = 8
+	}
+	two := []gIface{{Name: "eth0", Up: true, Addrs: []string{"10.0.0.1"}}, {Name: "eth1", Up: true, Addrs: []string{"192.168.1.2"}}}
+	vtSearch(c, p, vtSpec{Name: "candidate stream of gathering cycles: host", Model: "gather", Cfg: gatherCfg{Ifaces: two, NetTypes: []string{"udp4"}, CandTypes: []string{"host"}, Depth: depth}, Deadline: dl})
+	vtSearch(c, p, vtSpec{Name: "candidate stream of gathering cycles: host + srflx", Model: "gather", Cfg: gatherCfg{Ifaces: gIfacesBasic, NetTypes: []string{"udp4"}, CandTypes: []string{"host", "srflx"}, URLs: []string{"stun:198.51.100.1:3478"}, Depth: depth}, Deadline: dl})
+	csExplore(c, "addcandidate-after-cancel", 3, dl, func(zzmc.Failure) string { return "S6" })
+	csExplore(c, "gather-vs-restart", b, dl, nil)
 	_ = time.Second
 }
